@@ -427,7 +427,7 @@ def run_facet(facet, ctx):
 # ---------------------------------------------------------------------------
 
 def write_replay(prop, facet_name, rec):
-    d = os.path.join(VERIF_DIR, 'replays', prop.id)
+    d = os.path.join(os.environ.get('VERIF_REPLAY_DIR') or os.path.join(VERIF_DIR, 'replays'), prop.id)
     os.makedirs(d, exist_ok=True)
     body = {'property': prop.id, 'facet': facet_name, 'signature': rec['sig'],
             'oracle': rec['oracle'], 'message': rec['message'],
@@ -437,7 +437,7 @@ def write_replay(prop, facet_name, rec):
     path = os.path.join(d, name)
     with open(path, 'w') as f:
         json.dump(body, f, indent=1, sort_keys=True)
-    return os.path.relpath(path, VERIF_DIR)
+    return os.path.relpath(path, VERIF_DIR) if not os.environ.get('VERIF_REPLAY_DIR') else path
 
 
 def replay_file(prop, path):
@@ -594,7 +594,7 @@ def write_evidence(prop, tier, seed, results, wall, nviol, regress_run, known_se
     }
     if partial:
         ev['coverage']['partial_run'] = True
-    d = os.path.join(VERIF_DIR, 'evidence')
+    d = os.environ.get('VERIF_EVIDENCE_DIR') or os.path.join(VERIF_DIR, 'evidence')
     os.makedirs(d, exist_ok=True)
     tmp = os.path.join(d, '.%s.json.tmp' % prop.id)
     with open(tmp, 'w') as f:
